@@ -142,8 +142,12 @@ def rule_pair(ctx):
     b = repo.cls('sc3.synth.buffer:Buffer')
     fr = b.methods['free']
     src = full(fr.node)
-    ok = U.before(src, 'self._server._buffer_allocator.free(self._bufnum)', "msg = ['/b_free', self._bufnum,", 'self._bufnum = ', 'self._server.addr.send_msg(*msg)')
-    ctx.ob('C17.pair', f'{b.fq}:free-order', ok, 'free releases the number, builds /b_free with it, clears it, then sends exactly that message', fr.node, b.module)
+    ok = U.before(src, "msg = ['/b_free', self._bufnum, fn.value(completion_msg, self)]", 'self._server._buffer_allocator.free(self._bufnum)',
+                  'self._bufnum = ', 'self._server.addr.send_msg(*msg)')
+    ctx.ob('C17.pair', f'{b.fq}:free-order', ok,
+           'free first builds /b_free with the id and evaluates the completion message (user code that may raise, and that sees the '
+           'intact buffer), then returns the id, clears the fields and sends exactly that message: an exception leaves everything as it was',
+           fr.node, b.module)
     nb = repo.func('sc3.synth.server:Server._next_buffer_number')
     ctx.ob('C17.pair', f'{b.fq}:allocator', 'self._server._next_buffer_number(1)' in full(b.methods['__init__'].node) and
            'bufnum = self._buffer_allocator.alloc(n)' in full(nb.node), 'buffer numbers come from the allocator free() releases to', fr.node, b.module)
@@ -249,6 +253,9 @@ def run(ctx):
 
 
 MUTANTS = [
+    dict(rule='C17.pair', name='(fix reverted) id returned to the allocator before the completion function runs', file='sc3/synth/buffer.py',
+         old="        msg = ['/b_free', self._bufnum, fn.value(completion_msg, self)]\n        self._uncache()\n        self._server._buffer_allocator.free(self._bufnum)\n",
+         new="        self._uncache()\n        self._server._buffer_allocator.free(self._bufnum)\n        msg = ['/b_free', self._bufnum, fn.value(completion_msg, self)]\n"),
     dict(rule='C17.absent', name='node id 0 replaced by a fresh id (seed C17-c)', file='sc3/synth/node.py',
          old="        obj.node_id = obj.server._next_node_id() if node_id is None else node_id", new="        obj.node_id = node_id or obj.server._next_node_id()"),
     dict(rule='C17.cmds', name='/s_new with three fixed arguments', file='sc3/synth/node.py',
@@ -268,8 +275,8 @@ MUTANTS = [
     dict(rule='C17.pair', name='AudioBus frees to the control allocator', file='sc3/synth/bus.py',
          old="        self._server._audio_bus_allocator.free(self._index)", new="        self._server._control_bus_allocator.free(self._index)"),
     dict(rule='C17.pair', name='/b_free built after clearing the id', file='sc3/synth/buffer.py',
-         old="        msg = ['/b_free', self._bufnum, fn.value(completion_msg, self)]\n        self._bufnum = self._frames = self._channels = None\n",
-         new="        self._bufnum = self._frames = self._channels = None\n        msg = ['/b_free', self._bufnum, fn.value(completion_msg, self)]\n"),
+         old="        msg = ['/b_free', self._bufnum, fn.value(completion_msg, self)]\n        self._uncache()\n        self._server._buffer_allocator.free(self._bufnum)\n        self._bufnum = self._frames = self._channels = None\n",
+         new="        self._uncache()\n        self._server._buffer_allocator.free(self._bufnum)\n        self._bufnum = self._frames = self._channels = None\n        msg = ['/b_free', self._bufnum, fn.value(completion_msg, self)]\n"),
     dict(rule='C17.bind', name='send even when the block raised', file='sc3/base/netaddr.py',
          old="        if exc_type is None and self._send:", new="        if self._send:"),
     dict(rule='C17.bind', name='address restored only on success', file='sc3/base/netaddr.py',
